@@ -30,29 +30,29 @@ type LemmaUse struct {
 }
 
 type Contract struct {
-	Key      string // as written (short)
-	PkgPath  string
-	Kind     string // func, extern, fnfield, iface
-	Params   []string
-	Results  []string
-	Requires []Clause
-	Ensures  []Clause
-	Modifies []Clause
-	Loops    map[int]*LoopSpec
-	Uses     []LemmaUse // lemma instances asserted at function entry
+	Key                                   string // as written (short)
+	PkgPath                               string
+	Kind                                  string // func, extern, fnfield, iface
+	Params                                []string
+	Results                               []string
+	Requires                              []Clause
+	Ensures                               []Clause
+	Modifies                              []Clause
+	Loops                                 map[int]*LoopSpec
+	Uses                                  []LemmaUse // lemma instances asserted at function entry
 	Nowrap, Trusted, Pure, NilRecv, NoNil bool
-	Props    []string
-	File     string
-	Line     int
-	Bound    bool
+	Props                                 []string
+	File                                  string
+	Line                                  int
+	Bound                                 bool
 }
 
 type SpecFunc struct {
-	Name   string
-	Params []string
-	Body   ast.Expr
-	Text   string
-	Rec    bool
+	Name    string
+	Params  []string
+	Body    ast.Expr
+	Text    string
+	Rec     bool
 	PkgPath string
 }
 
@@ -85,17 +85,17 @@ type GlobalInv struct {
 }
 
 type ContractSet struct {
-	Funcs   map[string]*Contract // by key: "pkgpath::name" for in-repo, "name" for extern
-	Specs   map[string]*SpecFunc
-	Lemmas  []*Lemma
-	ObjInvs map[string]*ObjInv
+	Funcs      map[string]*Contract // by key: "pkgpath::name" for in-repo, "name" for extern
+	Specs      map[string]*SpecFunc
+	Lemmas     []*Lemma
+	ObjInvs    map[string]*ObjInv
 	GlobalInvs []*GlobalInv
-	Ghosts  map[string]string // name -> sort
+	Ghosts     map[string]string    // name -> sort
 	GhostTypes map[string][2]string // name -> (package path, Go type expression) for typed reference ghosts
-	Errors  []string
-	Hooks   []*Hook
-	UFs     map[string]ufInfo
-	Structs []*Structural
+	Errors     []string
+	Hooks      []*Hook
+	UFs        map[string]ufInfo
+	Structs    []*Structural
 }
 
 // Structural is an obligation discharged on the SSA of the package (store
@@ -400,7 +400,7 @@ func (cs *ContractSet) parseLines(lines []string, pkgPath, pkgName, file string,
 				after = true
 				k2, r2 = splitKw(r2)
 			}
-			if k2 != "call" && k2 != "go" && k2 != "store" && k2 != "load" && k2 != "mapwrite" && k2 != "make" && k2 != "elemstore" {
+			if k2 != "call" && k2 != "go" && k2 != "store" && k2 != "load" && k2 != "mapwrite" && k2 != "mapinsert" && k2 != "mapdelete" && k2 != "make" && k2 != "elemstore" {
 				errf(l, "hook/guard: expected call, go or store, got %q", k2)
 				continue
 			}
